@@ -149,7 +149,12 @@ def body_records(ctx, case):
     # record-level obligations (keys, types, extents) do not multiply with its collinearity branches
     real_clean = gd.clean_composite_curve
     if ctx.mode != "concrete":
-        gd.clean_composite_curve = lambda y, x: (list(y), list(x))
+        def _identity_clean(y, x):
+            xs = list(x)
+            if any(isinstance(v, float) and v != v for v in xs):
+                return real_clean(y, x)
+            return list(y), xs
+        gd.clean_composite_curve = _identity_clean
     try:
         gs = gd.get_output_graph_data(site, {})
     finally:
